@@ -26,6 +26,7 @@ pub mod rodbus {
     pub use crate::error::*;
     pub use crate::decode::*;
     pub use crate::types::*;
+    pub use crate::server_types::*;
     pub mod server { pub use crate::ffi_server::Authorization; pub use crate::rodbus_server::*; }
     pub mod client { pub use crate::rodbus_client::*; }
 }
@@ -48,6 +49,9 @@ pub mod client {
 //@include frag/ffi_client.tpl
 }
 pub use client::{ClientChannel, BitList, RegisterList};
+pub mod server_types {
+//@include frag/server_types.tpl
+}
 pub mod rodbus_server {
 //@include frag/ffi_rodbus_server_shim.tpl
 }
@@ -81,7 +85,7 @@ impl vstd::std_specs::convert::FromSpecImpl<crate::runtime::RuntimeError> for cr
 impl From<crate::runtime::RuntimeError> for crate::ffi::ParamError {
 //@fn ffi/rodbus-ffi/src/lib.rs | From<crate::runtime::RuntimeError> for crate::ffi::ParamError::from | tags=C18
 }
-pub use ffi_server::{Server, DeviceMap, AddressFilter};
+pub use ffi_server::{Server, DeviceMap, AddressFilter, BitValueIterator, RegisterValueIterator};
 pub mod ffi {
 //@include frag/ffi_generated.tpl
 }
